@@ -187,6 +187,63 @@ def run(props, tier, seed):
                 f.update(rnd.choice(EXTRAS))
                 fields[name] = shuffle_dict(rnd, f)
             check_set(b, {'fields': fields}, tmpdir, rnd, frs)
+        # sets built through the Python API: the loaded set must hold the same values and give the
+        # same verdicts as the ORIGINAL in-memory set
+        from tdda.constraints.base import (DatasetConstraints, FieldConstraints, TypeConstraint,
+                                           MinConstraint, MaxConstraint, SignConstraint, MaxNullsConstraint,
+                                           AllowedValuesConstraint, RexConstraint, MinLengthConstraint,
+                                           NoDuplicatesConstraint)
+        from tdda.constraints.pd.constraints import PandasConstraintVerifier, PandasVerification
+        import pandas as pd
+        api_sets = []
+        for prec in (None, 'closed', 'open', 'fuzzy'):
+            api_sets.append(('date-bounds-%s' % prec,
+                             [FieldConstraints('a', [TypeConstraint('date'),
+                                                     MinConstraint(D(2020, 1, 1, 10, 20, 30), precision=prec),
+                                                     MaxConstraint(D(2021, 6, 15, 12, 30, 0, 123456), precision=prec)])],
+                             pd.DataFrame({'a': pd.to_datetime([D(2020, 1, 1, 10, 20, 30), D(2021, 6, 15, 12, 30, 0, 123456)])})))
+            api_sets.append(('numeric-bounds-%s' % prec,
+                             [FieldConstraints('a', [TypeConstraint('real'), MinConstraint(-1.25, precision=prec),
+                                                     MaxConstraint(0.1 + 0.2, precision=prec), SignConstraint(None),
+                                                     MaxNullsConstraint(1)])],
+                             pd.DataFrame({'a': [-1.25, 0.1 + 0.2, None]})))
+        api_sets.append(('strings', [FieldConstraints('é', [TypeConstraint('string'), MinLengthConstraint(1),
+                                                             AllowedValuesConstraint(['a', "it's", 'é£']),
+                                                             RexConstraint([r'^[a-z]+$', r"^it's$", '^é£$']),
+                                                             NoDuplicatesConstraint()])],
+                         pd.DataFrame({'é': pd.Series(['a', "it's", 'é£'], dtype=object)})))
+        for label, fcs, df in api_sets:
+            w = {'api_set': label}
+            b.case(('api-set', label))
+            dc = DatasetConstraints(fcs)
+            with quiet():
+                ok, t1 = b.guarded('C09.to_json.noraise', lambda: dc.to_json(), w)
+            if not ok:
+                continue
+            path = os.path.join(tmpdir, 'apiset.tdda')
+            with open(path, 'w', encoding='utf-8') as f:
+                f.write(t1)
+            with quiet():
+                ok, dc2 = b.guarded('C09.load-file.noraise', lambda: DatasetConstraints(loadpath=path), w)
+            if not ok:
+                continue
+            for fname, fc in dc.fields.items():
+                for kind, c in fc.constraints.items():
+                    c2 = dc2.fields[fname].constraints.get(kind) if fname in dc2.fields else None
+                    same = (c2 is not None and c2.value == c.value and type(c2.value) is type(c.value)
+                            and getattr(c2, 'precision', None) == getattr(c, 'precision', None))
+                    b.check('C09.loaded-constraint-equals-original', same, dict(w, field=fname, kind=kind),
+                            'original %r (%s), loaded %r (%s)' % (c.value, type(c.value).__name__,
+                                                                  getattr(c2, 'value', None), type(getattr(c2, 'value', None)).__name__))
+            try:
+                with quiet():
+                    v1 = PandasConstraintVerifier(df.copy()).verify(dc, VerificationClass=PandasVerification)
+                    v2 = PandasConstraintVerifier(df.copy()).verify(dc2, VerificationClass=PandasVerification)
+                r1 = {f: dict(r) for f, r in v1.fields.items()}
+                r2 = {f: dict(r) for f, r in v2.fields.items()}
+                b.check('C09.same-verdicts-before-and-after-round-trip', r1 == r2, w, 'original %r, loaded %r' % (r1, r2))
+            except Exception as e:
+                b.check('C09.verify-original-and-loaded.noraise', False, w, repr(e)[:300])
         # python-API built sets with datetime.date / datetime bounds
         from tdda.constraints.base import (DatasetConstraints, FieldConstraints, TypeConstraint,
                                            MinConstraint, MaxConstraint)
